@@ -123,9 +123,24 @@ def _class_z3(expr, ctx):
     return _zb(eval(expr, {"__builtins__": {}}, env))
 
 
+def _orphan_guard():
+    """a worker whose parent has gone (killed check, hard timeout of the whole run) must not keep a core busy for hours"""
+    import threading
+
+    parent = os.getppid()
+
+    def watch():
+        while True:
+            time.sleep(5)
+            if os.getppid() != parent:
+                os._exit(3)
+    threading.Thread(target=watch, daemon=True).start()
+
+
 def _worker(args):
     modname, idx, tier, seed, pid = args
     t0 = time.time()
+    _orphan_guard()
     import resource
     ru0 = resource.getrusage(resource.RUSAGE_SELF)
     res = {"case": None, "error": None, "paths": 0, "queries": 0, "solver_s": 0.0, "obligations": {},
